@@ -127,6 +127,9 @@ def degenerate_modules(tier):
     add("odd hstring for OCTET STRING", "v OCTET STRING ::= 'ABC'H")
     add("choice value with a struct payload", "C ::= CHOICE { p SEQUENCE { n INTEGER } } v C ::= p:{ n 3 }")
 
+    add("table constraint with an inline object set", "CLS ::= CLASS { &id INTEGER UNIQUE, &Type } WITH SYNTAX { &Type IDENTIFIED BY &id } T ::= SEQUENCE { id CLS.&id ({ {BOOLEAN IDENTIFIED BY 1} }), v CLS.&Type ({ {BOOLEAN IDENTIFIED BY 1} }{@id}) } U ::= NULL")
+    add("table constraint with a referenced object set", "CLS ::= CLASS { &id INTEGER UNIQUE, &Type } WITH SYNTAX { &Type IDENTIFIED BY &id } Set CLS ::= { {BOOLEAN IDENTIFIED BY 1} | {NULL IDENTIFIED BY 2} } T ::= SEQUENCE { id CLS.&id ({Set}), v CLS.&Type ({Set}{@id}) OPTIONAL }")
+    add("choice with duplicate payload types", "C ::= CHOICE { a INTEGER, b INTEGER, c SEQUENCE OF INTEGER (0..5), d SEQUENCE OF INTEGER (0..5) } v C ::= a:5")
     # several modules: IMPORTS that the linker completes (governing types of imported values), dangling and cyclic imports
     def addm(role, *mods, assume=None):
         out.append((role, ' '.join(f"{nm} DEFINITIONS AUTOMATIC TAGS ::= BEGIN {body} END" for nm, body in mods), assume))
@@ -146,6 +149,19 @@ def degenerate_modules(tier):
     return out
 
 
+CFG_FLAGS = ['default_wildcard_imports', 'generate_from_impls', 'no_std_compliant_bindings', 'opaque_open_types']
+CFG_SYMS = {n_: z3.Bool('cfg_' + n_) for n_ in CFG_FLAGS}
+
+
+def model_config(m):
+    """the configuration a solver model stands for (options the path never read keep their defaults)"""
+    cfg = {}
+    for n_, s_ in CFG_SYMS.items():
+        val = m.eval(s_, model_completion=False) if m is not None else None
+        cfg[n_] = z3.is_true(val) if val is not None and (z3.is_true(val) or z3.is_false(val)) else (n_ == 'opaque_open_types')
+    return cfg
+
+
 def job_pipe(chk, prog, k, n, tier):
     from mirsym import pipe
     pp = pipe.Pipe(prog)
@@ -162,7 +178,9 @@ def job_pipe(chk, prog, k, n, tier):
                 def run(ex, text=text, assume=assume, backend=backend):
                     for c in (assume(v) if assume else []):
                         ex.assume(c)
-                    r = pp.compile(ex, text, sub if str(P1) in text else None, backend=backend)
+                    # the four boolean options of the rasn backend are free solver variables: a panic under any configuration
+                    # is a panic path whose condition names the options (replayed natively with them)
+                    r = pp.compile(ex, text, sub if str(P1) in text else None, backend=backend, config=dict(CFG_SYMS) if backend == 'rasn' else None)
                     # every returned error / warning is rendered (Display and contextualize)
                     rendered = 0
                     if r[0] == 'err':
@@ -173,8 +191,8 @@ def job_pipe(chk, prog, k, n, tier):
                             pp.render(ex, c.v, text)
                             rendered += 1
                     return (r[0], rendered)
-                def native_bad(ctext, backend=backend):
-                    out = runner.compile(ctext, backend=backend)
+                def native_bad(ctext, backend=backend, config=None):
+                    out = runner.compile(ctext, backend=backend, config=config)
                     if 'panic' in out:
                         return f"panics ({out['panic'][:80]})"
                     if 'crash' in out:
@@ -196,9 +214,10 @@ def job_pipe(chk, prog, k, n, tier):
                             m = chk.model_of(r.pc) if r.pc else None
                             val = model_int(m, v, True) if m is not None else 5
                             ctext = text.replace(str(P1), str(val))
-                            bad = native_bad(ctext)
+                            cfg = model_config(m) if backend == 'rasn' else None
+                            bad = native_bad(ctext, config=cfg)
                             if bad:
-                                chk.violation(sig, f"compiling {role} {bad} (native run; not visible on the symbolic path): {ctext!r}", {'kind': 'text', 'text': ctext, 'backend': backend})
+                                chk.violation(sig, f"compiling {role} {bad} (native run; not visible on the symbolic path): {ctext!r}", {'kind': 'text', 'text': ctext, 'backend': backend, 'config': cfg})
                                 continue
                             chk.res.diff_ok += 1
                         chk.res.discharged += 1
@@ -208,10 +227,11 @@ def job_pipe(chk, prog, k, n, tier):
                     m = chk.model_of(r.pc) if r.pc else None
                     val = model_int(m, v, True) if m is not None else 5
                     ctext = text.replace(str(P1), str(val))
-                    bad = native_bad(ctext)
+                    cfg = model_config(m) if backend == 'rasn' else None
+                    bad = native_bad(ctext, config=cfg)
                     chk.res.obligations += 1
                     if bad:
-                        chk.violation(sig, f"compiling {role} {bad}: {ctext!r}", {'kind': 'text', 'text': ctext, 'backend': backend})
+                        chk.violation(sig, f"compiling {role} {bad}{' under ' + str({k_: v_ for k_, v_ in cfg.items() if v_ != (k_ == 'opaque_open_types')}) if cfg else ''}: {ctext!r}", {'kind': 'text', 'text': ctext, 'backend': backend, 'config': cfg})
                     else:
                         what = r.value[0] if r.kind == 'panic' else 'step budget exceeded'
                         chk.res.inconclusive.append(f"not reproduced natively: {sig}: {what} (value {val})")
